@@ -38,7 +38,10 @@ func (pipeline *Pipeline) Run(ctx context.Context) (*codejen.FS, error) {
 		}
 
 		// prepare the jennies
-		languageJennies := target.Jennies(pipeline.jenniesConfig())
+		languageJennies, err := jenniesForLanguage(target, pipeline.jenniesConfig())
+		if err != nil {
+			return nil, err
+		}
 		languageJennies.AddPostprocessors(common.PathPrefixer(languageOutputDir))
 
 		// then delegate the codegen to the jennies
@@ -63,6 +66,21 @@ func (pipeline *Pipeline) Run(ctx context.Context) (*codejen.FS, error) {
 	}
 
 	return generatedFS, nil
+}
+
+// jenniesForLanguage builds the jennies of a language. Templates are loaded at
+// that moment, and a templates directory (`overrides_templates`) that can't be
+// read or holds an invalid template makes that step panic: the panic is
+// reported as the configuration error it is.
+func jenniesForLanguage(language languages.Language, config languages.Config) (jennies *codejen.JennyList[languages.Context], err error) {
+	defer func() {
+		if r := recover(); r != nil {
+			jennies = nil
+			err = fmt.Errorf("could not prepare jennies for language '%s': %v", language.Name(), r)
+		}
+	}()
+
+	return language.Jennies(config), nil
 }
 
 func (pipeline *Pipeline) ContextForLanguage(language languages.Language, schemas ast.Schemas) (languages.Context, error) {
